@@ -643,7 +643,7 @@ def gen_program_mips(rng, feat):
             elif r < 0.88 and "branch" in feat:
                 l = lab()
                 out.append("%s %s, %s, %s" % (rng.choice(["BEQ", "BNE"]), rng.choice(R), rng.choice(R + ["ZERO"]), l))
-                out.append(slot() if "mem" not in feat or rng.random() < 0.7 else mem())
+                out.append(slot() if "slotmem" not in feat or rng.random() < 0.7 else mem())
                 out.extend(body(rng.randint(1, 3), depth + 1) if depth < 3 else [alu()])
                 out.append("%s:" % l)
             elif r < 0.96 and "loop" in feat and depth < 2:
